@@ -115,6 +115,14 @@ TRUSTED["C11"] = [
     "havoc contracts of SSI_mpe / pLSCF_mpe at the call sites in SSIdat.mpe / pLSCF.mpe (data-flow contracts)",
 ]
 
+TRUSTED["C15"] = [
+    "pydantic models are truthy and store assigned attributes; a dict preserves insertion order",
+    "havoc contracts of run() (returns a fresh value or raises) and of the algorithms' mpe at the call sites in BaseSetup",
+    "generators are consumed eagerly (the list comprehension in MultiSetup_PoSER.__init__ drains _init_setups)",
+    "syntactic frame check of every run() body (no store to self.*, no in-place write through self.data, reads only its own attributes, no global state); "
+    "callees receive the data by reference and are assumed not to modify it (A4; the kernels' contracts are C01/C05/C12/C13)",
+]
+
 ASSUMPTIONS = {
     "C09": [
         "a mode-shape vector in a pole table is either entirely non-finite or entirely finite",
@@ -151,7 +159,13 @@ ASSUMPTIONS["C11"] = ["every addressed order column holds at least one retained 
                       "explicit orders: symbolic table shape, request count, order(s), rtol; covariances enumerated present/absent for the single-order variant",
                       "order='find_min' is NOT proved: bounded stand-in on crafted tables (see bounded_standins), labelled bounded"]
 
+ASSUMPTIONS["C15"] = ["setups per PoSER constructor enumerated 0..3 exhaustively over 0/1/2 algorithms per setup plus five 4-setup layouts; class identities, run/mpe "
+                      "states and the number of names symbolic", "algorithms per setup enumerated (2 for run_by_name, 3 for run_all); which of data / fs / run parameters "
+                      "are missing is symbolic", "the history clause (any sequence of add / run / mpe) follows by induction from the per-operation contracts, each proved from an arbitrary state"]
+
 NOT_DECIDED = {
+    "C15": ["save/load round trip and bit-identical reruns on real data: bounded stand-in only (pickle and floating point are outside the contracts)",
+            "that the numerical kernels called by run() are deterministic and leave their inputs unchanged (assumption A4)"],
     "C11": ["automatic order selection ('find_min') for all inputs: only the bounded stand-in speaks about it",
             "the list-of-orders variant with covariances (same loop body as the proved variants, not enumerated separately)"],
     "C06": ["MAC 1 with the dominant singular vector follows from 'Phi is a non-zero multiple of the stored vector' and C18's scale invariance; "
